@@ -15,6 +15,9 @@ IDENTITY_CALLEES = {
     ("std::convert::AsRef", "as_ref"),
 }
 
+IDENTITY_SHORT = {("Clone", "clone"), ("Deref", "deref"), ("DerefMut", "deref_mut"), ("Borrow", "borrow"), ("BorrowMut", "borrow_mut"),
+                  ("AsRef", "as_ref"), ("AsMut", "as_mut")}
+
 PTR_CASTS = ("PointerCoercion", "PtrToPtr", "Subtype", "Transmute")
 
 
@@ -213,8 +216,8 @@ class Vals:
             t = d[2]
             c = t.get("callee")
             if c:
-                tr = c.get("trait") or ""
-                if (tr, c.get("name")) in IDENTITY_CALLEES and t["args"]:
+                tr = (c.get("trait") or "").split("::")[-1]
+                if (tr, c.get("name")) in IDENTITY_SHORT and t["args"]:
                     return self.root(t["args"][0], depth + 1)
             return Root(("call", d[1]))
 
